@@ -39,16 +39,16 @@ PROBE = """
 PROBE_EXPECT = '(2432902008176640000 "a\xce\xbb" #(1 4 9) 42 (err "boom") "(a \\"b\\" #\\\\c 1.5)" (0 1 2 3 4) 12 mid 0.3333333333333333)'
 
 
-def tail_call(rng, fn_next, depth):
-    """An expression in tail position that (eventually) tail-calls fn_next with (- i 1) (+ acc 1)."""
+def tail_call(rng, fn_next, depth, pad=""):
+    """An expression in tail position that (eventually) tail-calls fn_next with (- i 1) (+ acc 1) [and its padding arguments]."""
     call = rng.choice([
-        "(%s (- i 1) (+ acc 1))" % fn_next,
-        "(apply %s (list (- i 1) (+ acc 1)))" % fn_next,
-        "(apply %s (- i 1) (list (+ acc 1)))" % fn_next,
+        "(%s (- i 1) (+ acc 1)%s)" % (fn_next, pad),
+        "(apply %s (list (- i 1) (+ acc 1)%s))" % (fn_next, pad),
+        "(apply %s (- i 1) (list (+ acc 1)%s))" % (fn_next, pad),
     ])
     if depth <= 0:
         return call
-    inner = lambda: tail_call(rng, fn_next, depth - 1)  # noqa
+    inner = lambda: tail_call(rng, fn_next, depth - 1, pad)  # noqa
     k = rng.below(20)
     if k >= 14:
         # one arm of a conditional ends the loop with a non-call expression (never taken: i >= 0 throughout), the other continues:
@@ -89,14 +89,18 @@ def tail_call(rng, fn_next, depth):
 def gen_tail_program(rng, n_iter, probe_mask):
     nf = rng.range(1, 3)
     names = ["f%d" % j for j in range(nf)]
+    # the procedures of a cycle take different numbers of arguments (fixed-arity ones get 0-2 padding parameters), so the cycle
+    # contains tail calls that pass more arguments than the caller received, and ones that pass fewer
+    arities = [rng.below(4) for _ in names]
+    extra = [rng.choice([0, 0, 1, 2]) if a == 0 else 0 for a in arities]
     defs = []
     for j, nm in enumerate(names):
         nxt = names[(j + 1) % nf]
-        body = tail_call(rng, nxt, rng.range(0, 3))
-        arity = rng.below(4)
+        body = tail_call(rng, nxt, rng.range(0, 3), " 'p" * extra[(j + 1) % nf])
+        arity = arities[j]
         probe = "(if (= 0 (modulo i %d)) (sim-probe i))" % probe_mask if j == 0 else "'noprobe"
         if arity == 0:
-            defs.append("(define (%s i acc) (if (= i 0) acc (begin %s %s)))" % (nm, probe, body))
+            defs.append("(define (%s i acc%s) (if (= i 0) acc (begin %s %s)))" % (nm, "".join(" p%d" % x for x in range(extra[j])), probe, body))
         elif arity == 1:
             defs.append("(define (%s i . rest) (let ((acc (car rest))) (if (= i 0) acc (begin %s %s))))" % (nm, probe, body))
         elif arity == 2:
@@ -104,7 +108,7 @@ def gen_tail_program(rng, n_iter, probe_mask):
         else:
             defs.append("(define %s (lambda (i acc . opt) (if (= i 0) acc (begin %s %s))))" % (nm, probe, body))
     defs.insert(0, "(define g5 0) (define (g5f x) x)")
-    return "\n".join(defs), "(%s %d 0)" % (names[0], n_iter)
+    return "\n".join(defs), "(%s %d 0%s)" % (names[0], n_iter, " 'p" * extra[0])
 
 
 def generate(rng, tier, index, seed):
